@@ -7,8 +7,8 @@ from .. import dft
 
 MANIFEST = dict(
     technique="Lean 4 proof: closed form and symmetry h(k)+h(-k)=2 of the analytic-signal weights for every N (the weight assignments are regenerated from utils.py by the translator), Re(ifft(h*fft x)) = x for real x on ZMod N (Mathlib DFT), even-sample identity, output length, linearity, dtype rule + differential correspondence of utils.real_to_complex against the executed specification built from the Lean weights",
-    level_text="proved for every N>=1: weights h0=1, 2 on positive bins, Nyquist 1 (even N), h(k)+h(-k)=2; hence the filtered signal's real part is the input and (-1)^m Re(out[m]) = x[2m]; ceil(N/2) samples; linear; complex refused, complex64 iff float32; tied: output values for every N<=48 and selected N to 4096, ranks 1-4, every axis, every real dtype, random and tone inputs, compared with ifft(h*fft x)*exp(-i pi n/2)[::2] computed with the model's weights",
-    level_note="PARTIAL on numerics: SciPy FFT rounding outside the model (validated at 1e-5 for 32-bit, 1e-11 for 64-bit, times log2 N). Trusted: Lean kernel + Mathlib, translator (weight assignments), hand model PbModel/Hilbert.lean; the tone statement is validated numerically only (not proved)",
+    level_text="proved for every N>=1: weights h0=1, 2 on positive bins, Nyquist 1 (even N), h(k)+h(-k)=2; hence the filtered signal's real part is the input and (-1)^m Re(out[m]) = x[2m]; ceil(N/2) samples; linear; a real tone at a positive bin w becomes the complex tone at w (C19_tone) and, after mixing and decimation, at w - N/4 (C19_tone_mixed); complex refused, complex64 iff float32; tied: output values for every N<=48 and selected N to 4096, ranks 1-4, every axis, every real dtype, random and tone inputs, compared with ifft(h*fft x)*exp(-i pi n/2)[::2] computed with the model's weights",
+    level_note="PARTIAL on numerics: SciPy FFT rounding outside the model (validated at 1e-5 for 32-bit, 1e-11 for 64-bit, times log2 N). Trusted: Lean kernel + Mathlib, translator (weight assignments), hand model PbModel/Hilbert.lean",
 )
 
 DTYPES = ["float32", "float64", "int8", "int16", "int32", "int64", "uint8", "float16", "bool"]
@@ -17,7 +17,7 @@ DTYPES = ["float32", "float64", "int8", "int16", "int32", "int64", "uint8", "flo
 class Prop(PropBase):
     id = "C19"
     lean_targets = ["PbProps.C19"]
-    theorems = ["Pb.C19." + t for t in ("C19_weights_closed", "C19_weights", "C19_real_part", "C19_real_part_re",
+    theorems = ["Pb.C19." + t for t in ("C19_weights_closed", "C19_weights", "C19_real_part", "C19_real_part_re", "C19_tone", "C19_tone_mixed",
                                         "C19_even_samples", "mix_factor_even", "C19_len", "C19_linear", "C19_dtype")]
     trusted_base = ["PbModel/Hilbert.lean + Gen/Hilbert.lean (translator output)", "numpy.fft complex128 oracle"]
     assumptions = []
